@@ -150,6 +150,13 @@ func c19Gen(g *fw.GenCtx) []fw.Case {
 		cases = append(cases, fw.MkCase("agg", c19Case{Gen: fmt.Sprintf("n:%d", n), Aggs: []aggSpec{specs[0], specs[2], specs[6], specs[12]}}))
 		cases = append(cases, fw.MkCase("agg", c19Case{Gen: fmt.Sprintf("n:%d", n), Aggs: []aggSpec{specs[1]}}))
 	}
+	// more distinct terms than the term aggregation's in-memory limit (100000)
+	if !g.Avoid["c19-over-100000-distinct-terms"] {
+		cases = append(cases, fw.MkCase("agg", c19Case{Gen: "d:100002", Aggs: []aggSpec{specs[1], specs[0]}}))
+	}
+	if !g.Quick() {
+		cases = append(cases, fw.MkCase("agg", c19Case{Gen: "d:99999", Aggs: []aggSpec{specs[1], specs[0]}}))
+	}
 	// random multisets
 	rng := rand.New(rand.NewSource(g.Seed*41 + 2))
 	pool := []interface{}{missing, nil, true, 1.0, 2.0, 2.0, 3.5, -1.0, -7.25, 0.0, 10.0, "a", "b", "a", "", []interface{}{1.0}, map[string]interface{}{"k": 1.0}, 100.0, 0.5}
@@ -448,6 +455,14 @@ func c19Exec(w *fw.Worker, c fw.Case) fw.Result {
 			}
 		}
 	}
+	if strings.HasPrefix(cc.Gen, "d:") {
+		// n distinct numeric values (term aggregations keep at most 100000 unique terms in memory)
+		var n int
+		fmt.Sscanf(cc.Gen, "d:%d", &n)
+		for i := 0; i < n; i++ {
+			values = append(values, float64(i))
+		}
+	}
 	var vs []*gdbi.Vertex
 	for i, v := range values {
 		data := map[string]interface{}{"other": float64(i % 3)}
@@ -488,7 +503,11 @@ func c19Exec(w *fw.Worker, c fw.Case) fw.Result {
 		res.AddSet("kinds", a.Kind)
 		if msg := checkAgg(a, inputs, combined[a.Name]); msg != "" {
 			detail["rows"] = canonAggRows(combined[a.Name])
-			return fw.ViolatedR("agg:"+a.Kind+":"+msgClass(msg), fmt.Sprintf("aggregation %s over %d rows: %s", a.Name, len(inputs), msg), detail)
+			key := "agg:" + a.Kind + ":" + msgClass(msg)
+			if a.Kind == "term" && len(inputs) > 100000 {
+				key = "agg:term:over-100000-distinct-terms"
+			}
+			return fw.ViolatedR(key, fmt.Sprintf("aggregation %s over %d rows: %s", a.Name, len(inputs), msg), detail)
 		}
 		res.Count("aggregations_checked", 1)
 		if len(cc.Aggs) > 1 {
